@@ -543,8 +543,12 @@ async fn main(plan: Plan) -> Outcome {
                 }
                 _ => {
                     let mut b = Batch::default();
-                    b.append_statement(p_insert.clone());
-                    b.append_statement(p_insert.clone());
+                    // The statements inside may carry their own idempotence marks; only the
+                    // batch's own flag counts for the batch request.
+                    let mut member = p_insert.clone();
+                    member.set_is_idempotent(m / 16 % 2 == 0);
+                    b.append_statement(member.clone());
+                    b.append_statement(member);
                     b.set_is_idempotent(s.idempotent);
                     b.set_consistency(s.consistency);
                     b.set_retry_policy(Some(rec));
